@@ -298,7 +298,7 @@ func init() {
 		ID: "C01", Level: "exploration",
 		Rule: "every predicate-free path of a named finite slice (12 axes x 6 node tests + abbreviations, separators / and //, relative and absolute) is evaluated by Select and Evaluate on every document of the tree universe from every context node (root, elements, attributes, text, comments) and compared as a set of node identities with the reference XPath 1.0 denotation; a case is non-trivial when the reference denotation is non-empty; distinct = distinct path expressions with at least one non-trivial case",
 		Assumptions: []string{"hand-written reference evaluator (self-checked by axis partition laws)", "lawful NodeNavigator (doc.Nav)", "bounds: documents with <= N content nodes over names {a,b}, attributes {a,x}"},
-		Budget:         budget(100*time.Second, 30*time.Minute),
+		Budget:         budget(200*time.Second, 30*time.Minute),
 		MinRefOutcomes: 2,
 		Spaces: func(tier string) []*explore.Space {
 			forms := stepForms(allTests, true)
